@@ -477,18 +477,33 @@ fn compile_reference_inputs(tx: &tir::Tx) -> Result<Vec<primitives::TransactionI
         .map(|x| utxo_ref_into_input(&x))
         .collect::<Result<Vec<_>, _>>()?;
 
-    Ok(refs)
+    Ok(dedup_inputs(refs))
+}
+
+// reference inputs and collateral are set fields: a utxo named by two blocks is listed once
+fn dedup_inputs(inputs: Vec<TransactionInput>) -> Vec<TransactionInput> {
+    let mut unique: Vec<TransactionInput> = Vec::with_capacity(inputs.len());
+
+    for input in inputs {
+        if !unique.contains(&input) {
+            unique.push(input);
+        }
+    }
+
+    unique
 }
 
 fn compile_collateral(tx: &tir::Tx) -> Result<Vec<TransactionInput>, Error> {
-    tx
+    let collateral = tx
         .collateral
         .iter()
         .filter_map(|collateral| collateral.utxos.as_option())
         .flat_map(coercion::expr_into_utxo_refs)
         .flatten()
         .map(|x| utxo_ref_into_input(&x))
-        .collect::<Result<Vec<_>, _>>()
+        .collect::<Result<Vec<_>, _>>()?;
+
+    Ok(dedup_inputs(collateral))
 }
 
 fn compile_required_signers(tx: &tir::Tx) -> Result<Option<primitives::RequiredSigners>, Error> {
